@@ -293,6 +293,22 @@ func (g *node1Gen) step() error {
 			}
 			es = append(es, e)
 		}
+		// an uncommitted configuration entry in the log: a new leader that never saw it overwrites
+		// exactly that index (or the one after / before it) with an entry of a higher term
+		if li := r.configs.Latest.Index; li > r.commitIndex && li > r.snaps.index && li <= r.lastLogIndex && g.rnd.Intn(3) == 0 {
+			at := g.pick(li, li, li, li+1, sub1(li))
+			if at > r.commitIndex && at > r.snaps.index+0 && at >= 1 && at <= r.lastLogIndex {
+				if pt, ok := g.termAt(at - 1); ok {
+					prev, pterm = at-1, pt
+					term = r.term + 1
+					es = []*entry{{index: at, term: term, typ: entryNop}}
+					if g.rnd.Intn(3) == 0 {
+						es = append(es, &entry{index: at + 1, term: term, typ: entryUpdate, data: []byte{9, 9}})
+					}
+					k = len(es)
+				}
+			}
+		}
 		commit := g.pick(0, r.commitIndex, prev, prev+uint64(k), prev+uint64(k)+1, r.commitIndex+1)
 		q := &appendReq{req: req{term, g.pick(2, 3)}, prevLogIndex: prev, prevLogTerm: pterm, ldrCommitIndex: commit, numEntries: uint64(len(es))}
 		res := n.deliverRPC(wireReq(q, wireEntries(es)))
